@@ -1,7 +1,10 @@
 (* Extraction of the C19 model for the correspondence check.  ExtrOcamlBasic only: bool, option,
    list, prod, unit map to OCaml's; nat, N, positive stay the extracted inductives. *)
 From Coq Require Import Extraction ExtrOcamlBasic.
-From PV Require Import Plan.Model.
+From PV Require Import Plan.Model Plan.Text.
 Extraction Language OCaml.
 Extraction "plan_model.ml" setup_build store_get wfb deps_from_import_graph escape lex_path lex_value
-  parse_build render eval_toks yield_sorted_modules.
+  parse_build render eval_toks yield_sorted_modules
+  write_imports read_from_file build_from_file splitext dirname basename join2
+  command_words render_rule parse_rule edge_command shell_escape ninja_shell_safe sh_words
+  path_to_module_name infer_module module_to_output_path resolved_file_to_module loader_path loader_init_path.
